@@ -110,7 +110,7 @@ _HANDLERS: tp.Mapping[
     # Short-circuit forward refs
     inspection.isforwardref: DelayedMarshaller,
     inspection.isunresolvable: routines.NoOpMarshaller,
-    inspection.isnonetype: routines.NoOpMarshaller,
+    inspection.isnonetype: routines.NoneTypeMarshaller,
     # Special handler for Literals
     inspection.isliteral: routines.LiteralMarshaller,
     # Special handler for Unions...
